@@ -57,16 +57,19 @@ def mutate(rng, text):
     elif k < 0.86:                                           # unknown species / phase / element / undefined entity number
         return re.sub(r"\b(Na|Cl|Ca|Calcite|Halite|Gypsum|solution 1|X|Hfo_wOH)\b", lambda m: rng.choice(["Zz", "Nosuchphase", "solution 4711", "Qq+7", m.group(0)]), text, count=rng.randint(1, 3))
     else:                                                    # block spliced into another block
-        other = rng.choice(c07.PERTURB).split("\n")
+        other = rng.choice(BASE_SNIPPETS).split("\n")
         i = rng.randrange(len(lines) + 1)
         lines[i:i] = other[: rng.randint(1, len(other))]
     return "\n".join(lines)
 
 
+BASE_SNIPPETS = c07.PERTURB[:18]        # frozen: the corpus must not change when other checks extend their snippet lists
+
+
 def base_inputs(rng):
     k = rng.random()
     if k < 0.5:
-        return rng.choice(c07.PERTURB)
+        return rng.choice(BASE_SNIPPETS)
     if k < 0.9:
         return gen_inputs.multi_sim_input(rng, nsims=rng.randint(1, 3))[0]
     return rng.choice(c07.FAILING)
@@ -96,6 +99,21 @@ def gen_case(rng):
     for _ in range(rng.randint(0, 2)):
         db = mutate(rng, db)
     return {"kind": "LoadString", "text": db.replace("\x00", " ")}
+
+
+def long_line_cases():
+    """valid inputs whose physical lines are long (buffer-growth boundaries of the line reader): comments are ignored by PHREEQC"""
+    out = []
+    base = "SOLUTION 1\n Na 1\n Cl 1\nEND\n"
+    for n in (4000, 4095, 4096, 4097, 5000, 20000, 70000):
+        out.append({"kind": "RunString", "text": "SOLUTION 1 # " + "c" * n + "\n Na 1\n Cl 1\nEND\n"})
+        out.append({"kind": "RunFile", "text": "SOLUTION 1\n Na 1 # " + "x y " * (n // 4) + "\n Cl 1\nEND\n"})
+    out.append({"kind": "RunString", "text": "# " + "z" * 9000 + "\n" + base})
+    out.append({"kind": "RunString", "text": "TITLE " + "t " * 3000 + "\n" + base})
+    out.append({"kind": "RunString", "text": "SOLUTION 1\n -nosuchoption # " + "q" * 4200 + "\nEND\n"})
+    out.append({"kind": "Accumulate", "text": "SOLUTION 1 # " + "c" * 6000 + "\n Na 1\nEND"})
+    out.append({"kind": "LoadString", "text": "# " + "d" * 6000 + "\n" + open(os.path.join(vlib.DB, "minimum.dat"), errors="replace").read()})
+    return out
 
 
 PROBE = "SOLUTION 1\n Na 1.5\n Cl 1.5\n Ca 0.2\n C(4) 0.4\nSELECTED_OUTPUT 1\n -high_precision true\n -totals Na Ca\nEQUILIBRIUM_PHASES 1\n Calcite 0 0.01\nEND\n"
@@ -169,7 +187,7 @@ def run(ctx):
             r = random.Random(8000 + sl)
             cases += [gen_case(r) for _ in range(ctx.n(260, 1500))]
         ctx.extra["corpus_slices"] = list(slices)
-        cases[:0] = [{"kind": "RunString", "text": t} for t in c07.FAILING] + [{"kind": "RunString", "text": ""}, {"kind": "RunString", "text": "\n\n#only a comment\n"}]
+        cases[:0] = [{"kind": "RunString", "text": t} for t in c07.FAILING] + [{"kind": "RunString", "text": ""}, {"kind": "RunString", "text": "\n\n#only a comment\n"}] + long_line_cases()
     ref = reference(wexe)
     tmo = 60
     with cf.ThreadPoolExecutor(max_workers=vlib.NCPU) as ex:
@@ -198,13 +216,19 @@ def run(ctx):
             site = re.search(r"/src/(?:phreeqcpp/)?(?:common/)?([\w.]+):(\d+):\d+: runtime error", err)
             if site:
                 key = "ub:%s:%s" % (site.group(1), site.group(2))       # one finding per source location
+            longtok = max([len(t) for ln in case["text"].split("\n") for t in ln.split("#")[0].split()] + [0])
+            if site:
+                pass
             elif "AddressSanitizer" in err:
                 fr = re.search(r"#\d+ 0x\w+ in ([\w:~]+)[^\n]*?/src/(?:phreeqcpp/)?(?:common/)?([\w.]+):\d+", err)
                 kind = re.search(r"AddressSanitizer: ([\w-]+)", err)
                 if fr:
                     key = "asan:%s:%s:%s" % (kind.group(1) if kind else "error", fr.group(2), fr.group(1))
+                    if "copy_token" in key and longtok < 200:
+                        key += ":no-long-token:" + vlib.key_of(case)      # the recorded copy_token root cause needs an over-long token
             elif "Buffer overrun in Utilities::str" in err:
-                key = "abort:Utilities::strcpy_safe-buffer-overrun"
+                # recorded root cause: a TOKEN (outside comments) longer than a fixed buffer; the same abort without such a token is new
+                key = "abort:Utilities::strcpy_safe-buffer-overrun" if longtok >= 200 else "abort:strcpy_safe-without-long-token:" + vlib.key_of(case)
             first_missing = next((i for i, r in enumerate(res) if r is None), None)
             stage = "the malformed call" if first_missing is not None and first_missing <= icall + 2 else "reload/probe after the failed call"
             ctx.violation(key, "%s in %s: %s" % (what, stage, m.group(1) if m else err[-300:]), dict(rep, stderr=err[-3000:]))
